@@ -10,10 +10,12 @@ tvars == <<vars, l>>
 Ev == TraceLog[l + 1]
 Consume(name) == l < TraceLen /\ Ev.ev = name /\ l' = l + 1
 EvSids == {Ev.seqs[i] : i \in 1..Len(Ev.seqs)}
+EvAtt == [s \in EvSids |-> Ev.atts[CHOOSE i \in 1..Len(Ev.seqs) : Ev.seqs[i] = s]]
+EvBud(s) == IF EvAtt[s] > 0 THEN EvAtt[s] ELSE 0
 
 TInit ==
     /\ l = 1
-    /\ mode = "policy" /\ A = 0 /\ ranges = <<>> /\ cd = 0 /\ mult = 0
+    /\ mode = "policy" /\ A = 0 /\ AF = <<>> /\ ranges = <<>> /\ cd = 0 /\ mult = 0
     /\ B = [s \in Sids |-> {0}] /\ cnt = [s \in Sids |-> 0]
     /\ last = [ev |-> "init"]
     /\ now = 0 /\ has = [k \in Sids |-> FALSE]
@@ -22,9 +24,8 @@ TInit ==
 
 TReset ==
     /\ Consume("reset")
-    /\ mode' = Ev.mode /\ A' = Ev.A /\ ranges' = Ev.ranges /\ cd' = Ev.cd /\ mult' = Ev.mult
-    /\ B' = [s \in EvSids |-> IF Ev.mode = "policy" THEN {0, IF Ev.A > 0 THEN Ev.A ELSE 0}
-                                                   ELSE {IF Ev.A > 0 THEN Ev.A ELSE 0}]
+    /\ mode' = Ev.mode /\ A' = Ev.A /\ AF' = EvAtt /\ ranges' = Ev.ranges /\ cd' = Ev.cd /\ mult' = Ev.mult
+    /\ B' = [s \in EvSids |-> IF Ev.mode = "policy" THEN {0, EvBud(s)} ELSE {EvBud(s)}]
     /\ cnt' = [s \in EvSids |-> 0]
     /\ last' = [ev |-> "reset"]
     /\ now' = 0 /\ has' = [k \in EvSids |-> FALSE]
